@@ -96,6 +96,39 @@ def write_replay(prop, name, payload):
     return os.path.relpath(path, VERIF)
 
 
+class _Runaway(MachineryError):
+    pass
+
+
+def _guard_on(tier):
+    import resource, signal
+    cap = int(os.environ.get("VERIF_MEM_GB", "12")) << 30
+    try:
+        soft, hard = resource.getrlimit(resource.RLIMIT_AS)
+        resource.setrlimit(resource.RLIMIT_AS, (cap if hard == resource.RLIM_INFINITY else min(cap, hard), hard))
+    except (ValueError, OSError):
+        pass
+    limit = int(os.environ.get("VERIF_WALL_S", "1500" if tier == "quick" else "10800"))
+
+    def _alarm(signum, frame):
+        raise _Runaway(f"the check ran longer than {limit} s (wall clock) — hang or runaway loop under the harness")
+    try:
+        signal.signal(signal.SIGALRM, _alarm)
+        signal.alarm(limit)
+    except (ValueError, OSError):
+        pass
+
+
+def _guard_off():
+    import resource, signal
+    try:
+        signal.alarm(0)
+        soft, hard = resource.getrlimit(resource.RLIMIT_AS)
+        resource.setrlimit(resource.RLIMIT_AS, (hard, hard))
+    except (ValueError, OSError):
+        pass
+
+
 def main(argv):
     ap = argparse.ArgumentParser()
     ap.add_argument("prop")
@@ -110,6 +143,9 @@ def main(argv):
         return _run(prop, a.tier, seed, a.replay, a.no_build, t0)
     except MachineryError as e:
         print(f"MACHINERY-ERROR property={prop}: {e}")
+        return 2
+    except MemoryError:
+        print(f"MACHINERY-ERROR property={prop}: memory cap reached while running the check (unbounded growth under the harness)")
         return 2
     except Exception:
         traceback.print_exc()
@@ -192,7 +228,13 @@ def _run(prop, tier, seed, replay, no_build, t0):
     ctx.deadline = t0 + (75 if tier == "quick" else 840)
 
     # 4. corpus + generated cases: correspondence and direct oracle
-    mod.check(ctx)
+    # Guard rails for a tree on which the implementation (or the harness driving it) runs away: an address-space cap
+    # and a wall-clock alarm turn unbounded growth / a hang into exit 2 instead of taking the machine down.
+    _guard_on(tier)
+    try:
+        mod.check(ctx)
+    finally:
+        _guard_off()
 
     if os.environ.get("VERIF_DEBUG"):
         for mm in ctx.mismatches[: int(os.environ["VERIF_DEBUG"])]:
